@@ -258,3 +258,4 @@ def str_len_slice(s):
 
 def str_guard(s, t):
     return (s and s.startswith(t)) or (not s and not t)
+
